@@ -52,7 +52,9 @@ def ints(x):
 
 
 def enc_cfg(env):
-    pen = float(env.penalty_per_timestep) * SCALE
+    # the penalty the CONFIGURATION asked for (constructor argument / documented default 0.5), not whatever the constructor
+    # stored: a constructor that mangles its argument must disagree with the model, not silently re-parameterise it
+    pen = float(getattr(env, "_verif_pen", env.penalty_per_timestep)) * SCALE
     assert pen == int(pen), "penalty not representable in the reward code"
     return [int(env.num_rows), int(env.num_cols), int(env.num_agents), int(env.time_limit), int(pen)]
 
@@ -138,7 +140,14 @@ def analyze(kit):
         ec = enc_cfg(env)
         lay = layout_of(env)
         label = cfg["label"]
-        pen = float(env.penalty_per_timestep)
+        want_pen = float(cfg["tags"].get("pen", 0.5))
+        env._verif_pen = want_pen
+        ec = enc_cfg(env)
+        res["C08"].evaluations += 1
+        if float(env.penalty_per_timestep) != want_pen:
+            kit.fail(["C08"], "Cleaner does not use the penalty_per_timestep it was constructed with", dict(cfg=label, op="penalty-wiring"),
+                     dict(asked=want_pen, stored=float(env.penalty_per_timestep)))
+        pen = want_pen
         # ---- C11: effective limit = `time_limit or rows*cols`
         if "tl_arg" in cfg["tags"] or label.endswith("-none"):
             tl_arg = cfg["tags"].get("tl_arg", None)
